@@ -28,7 +28,7 @@ ASSUMPTIONS = [
     "syndromes (sound together with the linearity monitor) plus random real executions",
     "pyModeS.common is the pure-Python module in this configuration; the C twin is covered by C15",
 ]
-REQUIRED = ["len56", "len112", "tail_text_echoed_in_payload", "sibling_frame_seen_before", "encode_true", "encode_false", "legacy", "contract_internal_crc"]
+REQUIRED = ["len56", "len112", "tail_text_echoed_in_payload", "sibling_frame_seen_before", "demodulated_df17_with_faded_bits", "encode_true", "encode_false", "legacy", "contract_internal_crc"]
 
 _state = {}
 
@@ -281,7 +281,15 @@ def m_syndrome5(ctx, case):
     ctx.nontrivial(("syn5", a, b))
 
 
-MONITORS = {"exact": m_exact, "closure": m_closure, "linear": m_linear, "detect": m_detect,
+def m_demod(ctx, case):
+    """the frame check as the demodulator uses it: DF17 frames with one or two faded bits (sample level) must not come out
+    of RtlReader._process_buffer with a non-zero checksum (workload and oracle shared with C19)"""
+    from . import C19
+    C19.m_buffer(ctx, case)
+    ctx.hit("demodulated_df17_with_faded_bits")
+
+
+MONITORS = {"demod": m_demod, "exact": m_exact, "closure": m_closure, "linear": m_linear, "detect": m_detect,
             "checkmsg": m_checkmsg, "contract": m_contract, "syndrome5": m_syndrome5}
 OPTIONAL_MONITORS = ("syndrome5",)
 
@@ -341,6 +349,15 @@ def cases(ctx):
             h_ = "%0*X" % (L // 2, rng.getrandbits(2 * L))
             hx = h_ + h_[::-1]
         yield "exact", {"n": 4 * L, "x": hx, "legacy": (k % 10 == 0), "case": ("upper", "lower", "mixed")[k % 3], "sibling": k % 5 == 0}
+    # --- demodulator path: DF17 frames, some with faded bits
+    from . import C19
+    for k in range(ctx.share(320 if quick else 6000)):
+        c = C19.mkcase(rng, "R1", rng.choice((1, 2, 3)), 17)
+        c.pop("second", None)
+        for f in c["frames"]:
+            if f.get("valid", True) and not f.get("weak") and rng.random() < 0.6:
+                f["weak"] = sorted(rng.sample(range(5, 112), rng.choice((1, 1, 2))))
+        yield "demod", c
     # --- closure / linearity
     for k in range(ctx.share(20000 if quick else 80000)):
         n = rng.choice((56, 112))
